@@ -55,6 +55,14 @@ let () = iter_lines (fun line ->
              go (r0 + n) (convert565 false (z_of_int src) dith (z_of_int mis) (z_of_int (scan0 + r0)) (z_of_int w)
                             (take n (drop r0 img)) buf (take n (drop r0 ptrs5))) in
            Printf.printf "ok %s\n" (pr (go 0 (nth nin)))
+       | "m15" | "m25" | "m15d" | "m25d" ->
+           (* merged upsampling to RGB565; <bottomup> field = bu | mis<<1 | _ | first_scanline<<6 *)
+           let fl = int_of_string (List.nth (words line) 7) in
+           let bu5 = (fl land 1) <> 0 and scan0 = (fl lsr 6) land 3 in
+           let cw = (w + 1) / 2 in
+           let ptrs5 = rows (z_of_int pitch) (nat_of_int h) bu5 in
+           Printf.printf "ok %s\n" (pr (merged565 false (String.length op = 4) (op.[1] = '2') (z_of_int w) (z_of_int scan0)
+                                         (take h (rowsof 0 w)) (rowsof 1 cw) (rowsof 2 cw) (nth 3) ptrs5))
        | "m1" | "m2" ->
            let cw = (w + 1) / 2 in
            let f = if op = "m1" then h2v1_rows else h2v2_rows in
